@@ -141,11 +141,15 @@ func (b *batchTx) Get(key string) (value string, err error) {
 }
 
 func (b *batchTx) Close() error {
-	if b.err != nil {
-		return b.err
-	}
+	// beginTx took a gate slot whether or not the transaction started.
 	if b.kv.Gate != nil {
 		defer b.kv.Gate.Done()
+	}
+	if b.err != nil {
+		if b.tx != nil {
+			b.tx.Rollback()
+		}
+		return b.err
 	}
 	return b.tx.Commit()
 }
